@@ -1334,6 +1334,11 @@ func runAff7(m *Model, r *RuleResult) {
 						continue
 					}
 					// parse "<S> + 0.5*<B>.W + 0.5*<A>.W"
+					type wTerm struct {
+						t   string
+						off int
+					}
+					var wTerms []wTerm
 					terms := splitTop(in, " + ")
 					d := linConst(0)
 					for _, t := range terms {
@@ -1343,13 +1348,20 @@ func runAff7(m *Model, r *RuleResult) {
 							t = t[i+1:]
 						}
 						d = d.add(linAtom(t), co)
-						switch {
-						case strings.HasSuffix(t, "["+l.keyVar+"]].W"):
-							leftW = t
-						case strings.HasSuffix(t, "["+l.keyVar+" + 1]].W"):
-							rightW = t
-						default:
+						// a width term of a neighbour: ...[<key> + k]].W (k = 0 when absent); the two neighbours differ by one
+						if off, ok := neighbourOffset(t, l.keyVar); ok {
+							wTerms = append(wTerms, wTerm{t, off})
+						} else {
 							spacing = t
+						}
+					}
+					if len(wTerms) == 2 {
+						a, b := wTerms[0], wTerms[1]
+						if a.off > b.off {
+							a, b = b, a
+						}
+						if b.off-a.off == 1 {
+							leftW, rightW = a.t, b.t
 						}
 					}
 					delta = d
@@ -2142,4 +2154,26 @@ func paramActuals(m *Model, fd *ast.FuncDecl, name string) []string {
 		}
 	}
 	return out
+}
+
+// neighbourOffset: t is "...[<key>]].W" or "...[<key> + k]].W"; returns k.
+func neighbourOffset(t, key string) (int, bool) {
+	if !strings.HasSuffix(t, "]].W") {
+		return 0, false
+	}
+	i := strings.LastIndex(t[:len(t)-4], "[")
+	if i < 0 {
+		return 0, false
+	}
+	idx := t[i+1 : len(t)-4]
+	if idx == key {
+		return 0, true
+	}
+	if strings.HasPrefix(idx, key+" + ") {
+		k := 0
+		if _, err := fmt.Sscanf(idx[len(key)+3:], "%d", &k); err == nil {
+			return k, true
+		}
+	}
+	return 0, false
 }
